@@ -473,9 +473,13 @@ int32_t jls_core_fsr_statistics(struct jls_core_s * self, uint16_t signal_id,
         JLS_LOGE("invalid data entry size: %d", (int) s->header.entry_size_bits);
         return JLS_ERROR_PARAMETER_INVALID;
     }
-    jls_dt_buffer_to_f64(&s->data[0], signal_def->data_type, self->f64_sample_buf->start, signal_def->samples_per_data);
+    uint32_t chunk_samples = s->header.entry_count;  // a chunk holds no more than it says, the scratch no more than a block
+    if (chunk_samples > signal_def->samples_per_data) {
+        chunk_samples = signal_def->samples_per_data;
+    }
+    jls_dt_buffer_to_f64(&s->data[0], signal_def->data_type, self->f64_sample_buf->start, chunk_samples);
     double * src = &self->f64_sample_buf->start[0];
-    double * src_end = &self->f64_sample_buf->start[s->header.entry_count];
+    double * src_end = &self->f64_sample_buf->start[chunk_samples];
     if (start_sample_id > chunk_sample_id) {
         src += start_sample_id - chunk_sample_id;
     }
@@ -495,9 +499,13 @@ int32_t jls_core_fsr_statistics(struct jls_core_s * self, uint16_t signal_id,
             ROE(jls_core_rd_fsr_data0(self, signal_id, start_sample_id));
             s = (struct jls_fsr_data_s *) self->buf->start;
             chunk_sample_id = s->header.timestamp;
-            jls_dt_buffer_to_f64(&s->data[0], signal_def->data_type, self->f64_sample_buf->start, signal_def->samples_per_data);
+            chunk_samples = s->header.entry_count;
+            if (chunk_samples > signal_def->samples_per_data) {
+                chunk_samples = signal_def->samples_per_data;
+            }
+            jls_dt_buffer_to_f64(&s->data[0], signal_def->data_type, self->f64_sample_buf->start, chunk_samples);
             src = &self->f64_sample_buf->start[0];
-            src_end = &self->f64_sample_buf->start[s->header.entry_count];
+            src_end = &self->f64_sample_buf->start[chunk_samples];
         }
         v = *src++;
         ++buf_offset;
